@@ -429,10 +429,15 @@ def main(module, argv=None):
         tp = time.time()
         results = run_shards([(module.__name__, tier, seed, pi, k, nsh) for k in range(nsh)])
         pev = 0
+        nconfirmed = 0
         for r in results:
             if 'hang' in r:
                 fnname = r.get('fn') or 'check'
+                if nconfirmed >= 1:
+                    total['labels']['harness: further shard stopped by a case over the time limit (not re-run: one already confirmed)'] += 1
+                    continue
                 if confirm_hang(module.__name__, fnname, r['hang'], 3 * r['limit']):
+                    nconfirmed += 1
                     if hang_violation:
                         total['violations'].append({'case': r['hang'], 'what': 'hang: case does not finish within %ss (alone, fresh process)' % (3 * r['limit']),
                                                     'detail': {'phase': name}, 'phase_check': fnname})
